@@ -83,11 +83,11 @@ impl<T: Qcow2IoOps> Qcow2Dev<T> {
         let cls_size = info.cluster_size();
         let l1_range = {
             let h = self.header.read().await;
-            let l1_size = self
-                .l1table
-                .read()
-                .await
-                .byte_size()
+            // The table on disk holds the header's l1_size entries. The
+            // table in ram is sized for the whole virtual size: what
+            // follows a shorter table on disk belongs to someone else, or
+            // to nobody.
+            let l1_size = std::cmp::max(h.l1_table_entries() * std::mem::size_of::<u64>(), 1)
                 .align_up(cls_size)
                 .unwrap();
 
